@@ -65,12 +65,14 @@ def _float_recipe(r):
 def recipe(r, d, maxd):
     k = r.random()
     if d < maxd and k < 0.13:
-        return {'t': 'list', 'v': [recipe(r, d + 1, maxd) for _ in range(r.randint(0, 3))]}
+        # (c: plain list or a subclass of it)
+        return {'t': 'list', 'v': [recipe(r, d + 1, maxd) for _ in range(r.randint(0, 3))], 'c': r.choice([0, 0, 0, 1])}
     if d < maxd and k < 0.20:
         return {'t': 'tuple', 'v': [recipe(r, d + 1, maxd) for _ in range(r.randint(0, 3))]}
     if d < maxd and k < 0.40:
         keys = r.sample(['a', 'b', 'c', 'k1', '', 'time', '_x', '!units[k]'], r.randint(0, 3))
-        return {'t': 'dict', 'v': [[key, recipe(r, d + 1, maxd)] for key in keys]}
+        # (c: plain dict, collections.OrderedDict or collections.defaultdict)
+        return {'t': 'dict', 'v': [[key, recipe(r, d + 1, maxd)] for key in keys], 'c': r.choice([0, 0, 0, 1, 2])}
     if k < 0.44:
         # (c: plain set or one of two subclasses of it - found by the serializers' subclass search)
         if r.random() < 0.3:
@@ -88,7 +90,7 @@ def recipe(r, d, maxd):
         return {'t': 'c', 'x': r.choice([None, True, False])}
     if k < 0.76:
         return {'t': 'np', 'k': r.choice(['int64', 'float64', 'arange', 'ones22', 'bool', 'strarr', 'float32', 'empty',
-                                          'subA', 'subB', 'masked', 'zerod_f', 'zerod_i', 'masked_m', 'strided']),
+                                          'subA', 'subB', 'masked', 'zerod_f', 'zerod_i', 'masked_m', 'strided', 'npstr']),
                 'x': r.randint(-10, 10)}
     if k < 0.93:
         m = r.choice(['f', 'f', 'i', 'nan', 'inf', '-inf', 'z', 'neg', 'arr', 'arr2'])
@@ -145,6 +147,10 @@ def _some_function(x):
     return x
 
 
+class _ListA(list):
+    pass
+
+
 class _Unsupported:
     pass
 
@@ -189,11 +195,13 @@ def build(rc, env):
     units, np = env['units'], env['np']
     t = rc['t']
     if t == 'list':
-        return [build(v, env) for v in rc['v']]
+        return [list, _ListA][rc.get('c', 0)]([build(v, env) for v in rc['v']])
     if t == 'tuple':
         return tuple(build(v, env) for v in rc['v'])
     if t == 'dict':
-        return {k: build(v, env) for k, v in rc['v']}
+        import collections
+        d = {k: build(v, env) for k, v in rc['v']}
+        return [dict, collections.OrderedDict, lambda x: collections.defaultdict(int, x)][rc.get('c', 0)](d)
     if t == 'set':
         if rc.get('mixed'):
             pool = [1, 2.5, 'a', 'b', None, True, ('t', 1), ('t', 'x')]
@@ -215,7 +223,8 @@ def build(rc, env):
                 'zerod_f': lambda: np.array(x / 4),                 # zero-dimensional arrays
                 'zerod_i': lambda: np.array(x),
                 'masked_m': lambda: np.ma.masked_array([x, 1, 2], mask=[0, 1, 0]),
-                'strided': lambda: np.arange(8)[::2] * x}[k]()
+                'strided': lambda: np.arange(8)[::2] * x,
+                'npstr': lambda: np.str_('s%d' % x)}[k]()
     if t in ('q', 'u'):
         u = None
         for name, power in rc['u']:
